@@ -144,6 +144,23 @@ def cmdWsSkel (ws : List String) : String :=
     | .error e => "err " ++ e.name
     | .ok ns => "ok" ++ sexpL (ns.map Sql.Node.skel)
   | [] => "bad-request"
+/-- `wsdomain <fuel> <hex text>`: for every statement of lexer ∘ splitter
+`<noCommentTok><noAssignTok><WsDomain>:<c>` (0/1 each) where `c` is `1` when grouping the statement and grouping its
+non-whitespace tokens give the same tree up to whitespace leaves, `0` when they differ, `e` when either fails -/
+def cmdWsDomain (ws : List String) : String :=
+  match ws with
+  | fuel :: rest =>
+    let fuel := fuel.toNat!
+    match lexSplit (parseText rest) with
+    | .error e => "err " ++ e.name
+    | .ok sts =>
+      "ok " ++ " ".intercalate (sts.map fun st =>
+        let b := fun (x : Bool) => if x then "1" else "0"
+        let c := match Sql.groupStatement fuel st, Sql.groupStatement fuel (Sql.skelToks st) with
+          | .ok n, .ok n' => if sexpL [n.skel] == sexpL [n'] then "1" else "0"
+          | _, _ => "e"
+        s!"{b (Sql.noCommentTok st)}{b (Sql.noAssignTok st)}{b (Sql.WsDomain kwNorm fuel st)}:{c}")
+  | [] => "bad-request"
 -- <<< skel command ----------------------------------------------------------------------------
 
 -- >>> delimsafe command -----------------------------------------------------------------------
@@ -222,6 +239,7 @@ def handle (line : String) : String :=
   | "leadhyp" :: rest => cmdLeadHyp (parseText rest)
   | "delimsafe" :: rest => cmdDelimSafe (parseText rest)
   | "skel" :: rest => cmdWsSkel rest
+  | "wsdomain" :: rest => cmdWsDomain rest
   | "acc" :: rest => Sql.Driver.cmdAcc rest   -- accessors (SqlModel/AccDriver.lean), stream S-ACC
   -- >>> formatting-side commands (SqlModel/FilterDriver.lean)
   | "opt" :: rest => Sql.Driver.cmdOpt rest
